@@ -214,8 +214,9 @@ def bufferInsert (s : State) (b pos len : Nat) : Out Nat :=
   | none => .fault "buffer_insert: freed buffer"
   | some x =>
     let used := x.used
-    let total := if pos < used then used + len else pos + len
-    let keep := if pos < used then used - pos else 0
+    -- `pos < used ? (used + len, used - pos) : (pos + len, 0)`
+    let total := max used pos + len
+    let keep := used - pos
     if total = 0 then .ok s 0
     else if total > x.size then .fail s .null
     else if x.immutable then .fail s .null
@@ -445,6 +446,15 @@ def detach (s : State) (b len : Nat) : Out Nat :=
         let s1 := s.newBuf len (x.flags - x.flags % 2) x.traits
         if 2 ≤ x.ref then detachCopy s1 b x nb else detachMove s1 b x nb len
 
+/-- `if (need) { b = b->detach(b, n); arr->_buf = b; }`: the buffer to continue with -/
+def ensure (s : State) (h b : Nat) (need : Bool) (n : Nat) : Out Nat :=
+  if need then
+    match detach s b n with
+    | .ok s1 nb => .ok (s1.setHandle h (some nb)) nb
+    | .fail s1 e => .fail s1 e
+    | .fault w => .fault w
+  else .ok s b
+
 /-! ### array level -/
 
 /-- `mpt_array_clone(&dst, from)`; `from = none` is the NULL pointer (drop) -/
@@ -498,41 +508,28 @@ def poke (s : State) (h off : Nat) (bytes : List Byte) : Out Unit :=
       if off + bytes.length > x.size then .fault "poke: outside the buffer"
       else .ok (s.setBuf b { x with data := Mem.write x.data off bytes }) ()
 
+/-- the write of `mpt_array_append` into buffer `nb` at `used` -/
+def appendAt (s : State) (nb used : Nat) (bytes : List Byte) : Out Nat :=
+  if bytes.length = 0 then .ok s used
+  else
+    match s.buf? nb with
+    | none => .fault "append: freed buffer"
+    | some z =>
+      if used + bytes.length > z.size then .fault "append: outside the buffer"
+      else .ok (setUsed s nb z (Mem.write z.data used bytes) (used + bytes.length)) used
+
 /-- `mpt_array_append(arr, len, base)`: offset of the appended data -/
 def arrayAppend (s : State) (h : Nat) (bytes : List Byte) : Out Nat :=
-  let len := bytes.length
   match s.handle h with
-  | none =>
-    let nb := s.bufs.length
-    let s1 := (s.newBuf len 0).setHandle h (some nb)
-    if len = 0 then .ok s1 0
-    else
-      match s1.buf? nb with
-      | none => .fault "append: freed buffer"
-      | some z => .ok (setUsed s1 nb z (Mem.write z.data 0 bytes) len) 0
+  | none => appendAt ((s.newBuf bytes.length 0).setHandle h (some s.bufs.length)) s.bufs.length 0 bytes
   | some b =>
     match s.buf? b with
     | none => .fault "append: freed buffer"
     | some x =>
       if x.traits.isSome then .fail s .null
       else
-        let used := x.used
-        let r : Out Nat :=
-          if len > x.size - used ∨ (len ≠ 0 ∧ (x.shared ∨ x.immutable)) then
-            match detach s b (used + len) with
-            | .ok s1 nb => .ok (s1.setHandle h (some nb)) nb
-            | .fail s1 e => .fail s1 e
-            | .fault w => .fault w
-          else .ok s b
-        match r with
-        | .ok s1 nb =>
-          if len = 0 then .ok s1 used
-          else
-            match s1.buf? nb with
-            | none => .fault "append: freed buffer"
-            | some z =>
-              if used + len > z.size then .fault "append: outside the buffer"
-              else .ok (setUsed s1 nb z (Mem.write z.data used bytes) (used + len)) used
+        match ensure s h b (bytes.length > x.size - x.used ∨ (bytes.length ≠ 0 ∧ (x.shared ∨ x.immutable))) (x.used + bytes.length) with
+        | .ok s1 nb => appendAt s1 nb x.used bytes
         | .fail s1 _ => .fail s1 .null
         | .fault w => .fault w
 
@@ -549,13 +546,21 @@ def arrayInsert (s : State) (h pos len : Nat) : Out Nat :=
     match s.buf? b with
     | none => .fault "insert: freed buffer"
     | some x =>
-      let used := max x.used pos
-      if used + len ≤ x.size ∧ ¬ x.shared then bufferInsert s b pos len
-      else
-        match detach s b (used + len) with
-        | .ok s1 nb => bufferInsert (s1.setHandle h (some nb)) nb pos len
-        | .fail s1 _ => .fail s1 .null
-        | .fault w => .fault w
+      match ensure s h b (¬ (max x.used pos + len ≤ x.size ∧ ¬ x.shared)) (max x.used pos + len) with
+      | .ok s1 nb => bufferInsert s1 nb pos len
+      | .fail s1 _ => .fail s1 .null
+      | .fault w => .fault w
+
+/-- `p = mpt_array_insert(arr, pos, len); memcpy(p, data, len)`: insertion as callers perform it -/
+def insertOp (s : State) (h pos : Nat) (bytes : List Byte) : Out Nat :=
+  match arrayInsert s h pos bytes.length with
+  | .ok s1 p =>
+    match poke s1 h p bytes with
+    | .ok s2 _ => .ok s2 p
+    | .fail s2 e => .fail s2 e
+    | .fault w => .fault w
+  | .fail s1 e => .fail s1 e
+  | .fault w => .fault w
 
 /-- `mpt_array_set(arr, traits, len, data, off)`; `off` counts elements, negative = from the end -/
 def arraySet (s : State) (h : Nat) (traits : Option Traits) (bytes : List Byte) (hasSrc : Bool) (off : Int) : Out Nat :=
@@ -588,14 +593,7 @@ def arraySet (s : State) (h : Nat) (traits : Option Traits) (bytes : List Byte) 
             else
               let pos := pos1.toNat
               let total := pos + len
-              let r : Out Nat :=
-                if x.size < total ∨ x.immutable ∨ x.shared then
-                  match detach s b (max total x.used) with
-                  | .ok s1 nb => .ok (s1.setHandle h (some nb)) nb
-                  | .fail s1 e => .fail s1 e
-                  | .fault w => .fault w
-                else .ok s b
-              match r with
+              match ensure s h b (x.size < total ∨ x.immutable ∨ x.shared) (max total x.used) with
               | .ok s1 nb =>
                 match bufferSet s1 nb (some t) pos bytes hasSrc with
                 | .ok s2 _ => .ok s2 pos
@@ -624,14 +622,7 @@ def arraySlice (s : State) (h off len : Nat) : Out Nat :=
         | none => false
       if bad then .fail s .null
       else
-        let r : Out Nat :=
-          if total > x.size ∨ x.immutable ∨ x.shared then
-            match detach s b (max total used) with
-            | .ok s1 nb => .ok (s1.setHandle h (some nb)) nb
-            | .fail s1 e => .fail s1 e
-            | .fault w => .fault w
-          else .ok s b
-        match r with
+        match ensure s h b (total > x.size ∨ x.immutable ∨ x.shared) (max total used) with
         | .ok s1 nb =>
           if total > used then
             let missing := total - used
@@ -668,11 +659,11 @@ def arrayReduce (s : State) (h : Nat) : Out Nat :=
     match s.buf? b with
     | none => .fault "reduce: freed buffer"
     | some x =>
-      match detach s b x.used with
+      match ensure s h b true x.used with
       | .ok s1 nb =>
         match s1.buf? nb with
         | none => .fault "reduce: freed buffer"
-        | some z => .ok (s1.setHandle h (some nb)) z.size
+        | some z => .ok s1 z.size
       | .fail s1 _ => .ok s1 x.size
       | .fault w => .fault w
 
@@ -793,7 +784,7 @@ def arrayPrintf (s : State) (h : Nat) (ct : Traits) (text : List Byte) : Out Nat
     | .ok s1 _ =>
       match snprintfAt s1 h used len text with
       | .ok s2 _ =>
-        if n < len then
+        if n = 0 ∨ n < len then
           match setUsedH s2 h (used + n) with
           | .ok s3 _ => .ok s3 n
           | .fail s3 e => .fail s3 e
@@ -901,11 +892,7 @@ def sliceWrite (s : State) (h nblk esz : Nat) (bytes : List Byte) : Out Nat :=
 def detachOp (s : State) (h n : Nat) : Out Nat :=
   match s.handle h with
   | none => .fail s .null
-  | some b =>
-    match detach s b n with
-    | .ok s1 nb => .ok (s1.setHandle h (some nb)) nb
-    | .fail s1 e => .fail s1 e
-    | .fault w => .fault w
+  | some b => ensure s h b true n
 
 /-- private copy of the current size, then `mpt_buffer_cut` -/
 def cutOp (s : State) (h off len : Nat) : Out Nat :=
@@ -915,8 +902,8 @@ def cutOp (s : State) (h off len : Nat) : Out Nat :=
     match s.buf? b with
     | none => .fault "cut: freed buffer"
     | some x =>
-      match detach s b x.used with
-      | .ok s1 nb => bufferCut (s1.setHandle h (some nb)) nb off len
+      match ensure s h b true x.used with
+      | .ok s1 nb => bufferCut s1 nb off len
       | .fail s1 e => .fail s1 e
       | .fault w => .fault w
 
@@ -928,8 +915,8 @@ def bsetOp (s : State) (h pos : Nat) (bytes : List Byte) (hasSrc : Bool) : Out I
     match s.buf? b with
     | none => .fault "bset: freed buffer"
     | some x =>
-      match detach s b (max x.used (pos + bytes.length)) with
-      | .ok s1 nb => bufferSet (s1.setHandle h (some nb)) nb x.traits pos bytes hasSrc
+      match ensure s h b true (max x.used (pos + bytes.length)) with
+      | .ok s1 nb => bufferSet s1 nb x.traits pos bytes hasSrc
       | .fail s1 e => .fail s1 e
       | .fault w => .fault w
 
